@@ -163,9 +163,9 @@ def tsan_pass(tier):
                 head = blk.splitlines()[0]
                 frames = re.findall(r"(engine/\w+\.(?:cpp|h):\d+)", blk)
                 if "data race" in head and frames:
-                    # a race between the exiting main thread's destructors (~Uci / ~Search after `quit`) and the
+                    # a race between the exiting main thread's destructor (~Uci after `quit` / end of input) and the
                     # already finished, detached search thread is process tear-down, not stop signalling
-                    teardown = "~Uci()" in blk or "~Search()" in blk
+                    teardown = "~Uci()" in blk
                     reports.append(dict(kind=re.sub(r"\(pid=\d+\)", "", head).strip(), frames=sorted(set(frames))[:6], delay_s=d, script=script[0], teardown=teardown))
     return runs, reports
 
@@ -201,7 +201,11 @@ def run_c06(prop, tier):
         for i in range(nsh):
             jobs.append(dict(argv=[exe, "--script", script, "--arena", str(arena), "--n0", str(n), "--bound", str(bound), "--shard", "%d/%d" % (i, nsh),
                                    "--deadline", str(_deadline(tier))], timeout=_deadline(tier) * 2 + 300))
-    merged = driver.merge(driver.run_jobs(prop, tier, jobs))
+    sexe = searchmc_exe()
+    for i in range(4):
+        jobs.append(dict(argv=[sexe, "--prop", "C06", "--tier", tier, "--list", "overlap", "--shard", "%d/4" % i, "--seed", str(driver.seed()),
+                               "--deadline", str(_deadline(tier))], timeout=_deadline(tier) * 2 + 300))
+    merged = driver.merge(driver.run_jobs(prop, tier, jobs, env=_asan_env()))
     runs, reports = tsan_pass(tier)
     merged["counters"]["tsan_free_running_runs"] = runs
     merged["counters"]["tsan_teardown_reports_ignored"] = sum(1 for r in reports if r["teardown"])
